@@ -11,7 +11,7 @@ JSON values travel as space separated tokens (prefix form):
   `[<k>` array of the k following values, `{<k>` object of the k following (string, value) pairs.
 
 Requests:
-  `cfg <batchDisabled 0|1> <peekLimit n|-> <nullForNilResult 0|1> <silentNotificationErrors 0|1>` -> `ok`
+  `cfg <batchDisabled> <peekLimit n|-> <nullForNilResult> <silentNotificationErrors> <internalErrorOnHandlerFailure> <legalIdEchoOnly> <nullNotGiven>` (0|1 each) -> `ok`
   `tbl <k> { <name s-token> <behaviour> <nparams> { <pname s-token> <optional 0|1> <type> } }`      -> `ok`
   `in <leadWs> <firstIsBracket 0|1> x`            (first JSON value does not parse)
   `in <leadWs> <firstIsBracket 0|1> v <tokens>`   -> tokens of `[[body]?, [[name, [args]]...]]` or `dk`
@@ -30,6 +30,7 @@ structure St where
   cfg : Config := {}
   tbl : Table := []
   beh : List (String × Behaviour) := []
+  nullNotGiven : Bool := true
 
 def strOfTok (cs : List Char) : Option String :=
   match hexToBytesAux cs with
@@ -118,7 +119,7 @@ def ptype? : String → Option PType
 def behaviour? : String → Option Behaviour
   | "echo" => some .echo | "fail" => some .fail | "internal" => some .internal
   | "nilres" => some .nilres | "typednil" => some .typednil | "both" => some .both
-  | "waitctx" => some .waitctx
+  | "waitctx" => some .waitctx | "unmarshalable" => some .unmarshalable | "panic" => some .panic
   | _ => none
 
 def nameTok? (t : String) : Option String :=
@@ -151,15 +152,15 @@ def logJson (log : List Call) : Json := .arr (log.map (fun c => .arr [.str c.1, 
 
 /-- run `f` with the strict and the lenient reading of unsafe numbers at `any`; `dk` if they differ -/
 def both (st : St) (f : Env → String) : String :=
-  let a := f (goEnv true st.beh)
-  let b := f (goEnv false st.beh)
+  let a := f (goEnv true st.beh st.nullNotGiven)
+  let b := f (goEnv false st.beh st.nullNotGiven)
   if a == b then a else "dk"
 
 def answer (st : St) (inp : Input) : String :=
   both st fun env =>
-    let out := handleInput st.cfg env st.tbl inp
+    let out := handleInputF st.cfg env st.tbl inp
     let body : Json := match out.body with | none => .arr [] | some b => .arr [b]
-    render (.arr [body, logJson out.log])
+    render (.arr [body, logJson out.log, .arr [.bool out.goError, .bool out.panicked]])
 
 def parseInput : List String → Option (Input × List String)
   | lw :: fb :: "x" :: rest => do
@@ -186,15 +187,17 @@ def httpMethod? : String → Option HttpMethod
 
 def step (st : St) (line : String) : St × String :=
   match words line with
-  | ["cfg", bd, pk, nn, sn] =>
-    match bool01? bd, bool01? nn, bool01? sn with
-    | some bd, some nn, some sn =>
+  | ["cfg", bd, pk, nn, sn, ie, li, ng] =>
+    match bool01? bd, bool01? nn, bool01? sn, bool01? ie, bool01? li, bool01? ng with
+    | some bd, some nn, some sn, some ie, some li, some ng =>
       let peek : Option (Option Nat) := if pk == "-" then some none else (natOfChars pk.toList).map some
       match peek with
-      | some p => ({ st with cfg := { batchDisabled := bd, peekLimit := p, nullForNilResult := nn,
-                                      silentNotificationErrors := sn } }, "ok")
+      | some p => ({ st with nullNotGiven := ng,
+                             cfg := { batchDisabled := bd, peekLimit := p, nullForNilResult := nn,
+                                      silentNotificationErrors := sn, internalErrorOnHandlerFailure := ie,
+                                      legalIdEchoOnly := li } }, "ok")
       | none => (st, "bad-op")
-    | _, _, _ => (st, "bad-op")
+    | _, _, _, _, _, _ => (st, "bad-op")
   | "tbl" :: k :: rest =>
     match natOfChars k.toList with
     | some k =>
@@ -212,7 +215,7 @@ def step (st : St) (line : String) : St × String :=
       (st, both st fun env =>
         let r := serveHTTP st.cfg env st.tbl { method := m, pathIsRoot := root, body := inp }
         let body : Json := match r.body with | none => .arr [] | some b => .arr [b]
-        s!"{r.status} {if r.json then 1 else 0} " ++ render (.arr [body, logJson r.log]))
+        s!"{r.status} {if r.json then 1 else 0} {if r.dropped then 1 else 0} " ++ render (.arr [body, logJson r.log]))
     | _, _, _ => (st, "bad-op")
   | "ws" :: k :: rest =>
     match natOfChars k.toList with
@@ -221,7 +224,7 @@ def step (st : St) (line : String) : St × String :=
       | some (msgs, []) =>
         (st, both st fun env =>
           let outs := wsSession st.cfg env st.tbl msgs
-          render (.arr [.arr (wsWire outs), logJson (wsLog outs)]))
+          render (.arr [.arr (wsWire outs), logJson (wsLog outs), .bool (wsClosed outs)]))
       | _ => (st, "bad-op")
     | none => (st, "bad-op")
   | "pretty" :: k :: rest =>
@@ -251,7 +254,8 @@ def step (st : St) (line : String) : St × String :=
       | _ => (st, "bad-op")
   | ["f64", t] => (st, match F64.roundTrip t with | some r => r | none => "err")
   | ["defaults"] =>
-    (st, s!"{match junoCfg.peekLimit with | none => "-" | some n => toString n} {if junoCfg.nullForNilResult then 1 else 0} {if junoCfg.silentNotificationErrors then 1 else 0}")
+    let b (x : Bool) : Nat := if x then 1 else 0
+    (st, s!"{match junoCfg.peekLimit with | none => "-" | some n => toString n} {b junoCfg.nullForNilResult} {b junoCfg.silentNotificationErrors} {b junoCfg.internalErrorOnHandlerFailure} {b junoCfg.legalIdEchoOnly} {b (goEnv true []).nullNotGiven}")
   | ["felt", t] =>
     match nameTok? t with
     | some s =>
